@@ -106,6 +106,7 @@ type c17Hist struct {
 	tagDied  map[uint32]int                      // event at which that version was replaced / withdrawn / lost
 	bestTags []map[uint32]bool                   // per event: the versions gobgp ranked first at quiescence after it
 	apiRel   map[string]map[string]bool          // AddPath NLRI text of API routes originated in a VRF -> VRFs that used it
+	apKeys   map[string]bool                     // NLRI (key scope) for which some source announced a path WITH a path id
 }
 
 type c17Since struct {
@@ -471,6 +472,9 @@ func (h *c17Hist) rememberRTs(fam bgp.Family, key string, rts []c17RT) {
 // putRoute records an announcement in the model and classifies it for violation keys.
 func (h *c17Hist) putRoute(rt *c17Route) string {
 	h.tagKey[rt.tag] = rt.c17PathKey
+	if rt.id != 0 {
+		h.apKeys[c17KeyScope(rt.fam, rt.key)] = true
+	}
 	if rt.rel != "" {
 		if h.apiRel[rt.rel] == nil {
 			h.apiRel[rt.rel] = map[string]bool{}
